@@ -616,6 +616,9 @@ func init() {
 			g := goproto.Run(def, core.Pkgs("./optimize"))
 			g.Floor("go_statements", 3)
 			res.Merge(g)
+			sd := errx.RunStatusDropped(def, core.Pkgs("./optimize/..."))
+			sd.Floor("status_error_pairs_stored", 1)
+			res.Merge(sd)
 			ic := initx.RunComplete(def, "./optimize/...")
 			ic.Floor("state_fields_written_while_running", 40)
 			res.Merge(ic)
@@ -930,6 +933,8 @@ func dump(argv []string) {
 		res = loopidx.RunStaleFlag(def, core.Pkgs(argv[1:]...))
 	case "sentinel":
 		res = flagx.RunSentinel(def, core.Pkgs(argv[1:]...))
+	case "statusdrop":
+		res = errx.RunStatusDropped(def, core.Pkgs(argv[1:]...))
 	case "workquery":
 		res = flagx.RunWorkQuery(def, core.Pkgs(argv[1:]...))
 	case "betascale":
